@@ -670,7 +670,7 @@ func (s *Server) cmdSET(msg *Message) (resp.Value, commandDetails, error) {
 			if err != nil {
 				return retwerr(errInvalidArgument(exval))
 			}
-			ex = time.Now().UnixNano() + int64(float64(time.Second)*x)
+			ex = deadlineAfter(time.Now(), x)
 		case "nx":
 			if xx {
 				return retwerr(errInvalidArgument(args[i]))
@@ -1081,8 +1081,7 @@ func (s *Server) cmdEXPIRE(msg *Message) (resp.Value, commandDetails, error) {
 	col, _ := s.cols.Get(key)
 	if col != nil {
 		// replace the expiration by getting the old object
-		ex := time.Now().Add(
-			time.Duration(float64(time.Second) * value)).UnixNano()
+		ex := deadlineAfter(time.Now(), value)
 		o := col.Get(id)
 		ok = o != nil
 		if ok {
@@ -1299,4 +1298,19 @@ func (s *Server) cmdFEXISTS(msg *Message) (resp.Value, error) {
 				time.Since(start).String() + "\"}"), nil
 	}
 	return resp.BoolValue(exists), nil
+}
+
+// deadlineAfter returns the unix-nano deadline that lies the given number of
+// seconds after now. A duration outside of the int64 nanosecond range is
+// clamped instead of wrapping around to the other end of the range.
+func deadlineAfter(now time.Time, seconds float64) int64 {
+	n := now.UnixNano()
+	d := float64(time.Second) * seconds
+	if d >= float64(math.MaxInt64-n) {
+		return math.MaxInt64
+	}
+	if d <= float64(math.MinInt64) {
+		return math.MinInt64 + n
+	}
+	return n + int64(d)
 }
